@@ -226,8 +226,8 @@ class Built(object):
         if r.returncode != 0:
             self.error = ('compile', r.stderr.decode(errors='replace')[-6000:])
 
-    def run(self, script_lines, timeout=20):
-        return cexec.run_driver(self.dir, script_lines, timeout=timeout)
+    def run(self, script_lines, timeout=20, unbuffered=False):
+        return cexec.run_driver(self.dir, script_lines, timeout=timeout, env={'VF_UNBUF': '1'} if unbuffered else None)
 
     def close(self):
         if self.own:
